@@ -37,6 +37,14 @@ def value_alphabet(img, fields, name, orig, width):
     return [v for v in dict.fromkeys(out) if v != orig]
 
 
+def load_c10():
+    import importlib.util
+    spec = importlib.util.spec_from_file_location("c10", os.path.join(VERIF, "checks", "C10.py"))
+    m = importlib.util.module_from_spec(spec)
+    spec.loader.exec_module(m)
+    return m
+
+
 def limit_child():
     resource.setrlimit(resource.RLIMIT_FSIZE, (64 << 20, 64 << 20))
     resource.setrlimit(resource.RLIMIT_CORE, (0, 0))
@@ -69,6 +77,9 @@ def operations(img_path, base_path, paths, wd, tier):
            ("sqfs2tar", [s2t, img_path]), ("rdsquashfs -u", [rd, "-q", "-u", "/", "-p", os.path.join(wd, "u1"), img_path]),
            ("rdsquashfs -u -C -O -T -X", [rd, "-q", "-u", "/", "-p", os.path.join(wd, "u2"), "-C", "-O", "-T", "-X", img_path]),
            ("sqfsdiff a b", [diff, "-a", base_path, "-b", img_path]), ("sqfsdiff b a", [diff, "-a", img_path, "-b", base_path])]
+    if "reader_hist" in T and os.path.exists(base_path + ".ops"):
+        # libsquashfs reader API: every sequence of <= 2 operations (derived from the valid base image) on fresh readers of the variant
+        ops.append(("libsquashfs-api histories<=2", [T["reader_hist"], img_path, base_path + ".ops", "enum", "2", "0", "99"]))
     for p in paths[:6]:
         ops.append(("rdsquashfs -s", [rd, "-s", p, img_path]))
         ops.append(("rdsquashfs -x", [rd, "-x", p, img_path]))
@@ -91,9 +102,11 @@ def evaluate(a):
         for opname, argv in operations(ip, base_path, BASE[bname][2], wd, tier):
             r = run_reader(argv, wd, 10)
             if r.timeout:
-                r = run_reader(argv, wd, 60)
+                # the API pass runs ~1000 histories in one process, each on fresh readers: a slow table load multiplies
+                limit = 600 if opname.startswith("libsquashfs-api") else 60
+                r = run_reader(argv, wd, limit)
                 if r.timeout:
-                    found.append(("C05|hang|%s" % opname.split(" -")[0] + "|" + opname, opname, "does not terminate within 60 s", argv))
+                    found.append(("C05|hang|%s" % opname.split(" -")[0] + "|" + opname, opname, "does not terminate within %d s" % limit, argv))
                     continue
             if r.crashed:
                 found.append(("C05|%s|%s" % (r.crash_fingerprint(), opname.split()[0]), opname, r.err.decode("latin1")[-3000:], argv))
@@ -104,14 +117,18 @@ def evaluate(a):
 
 def main():
     global SCR
-    cr = CheckRun("C05", "exploration", default_budget=(480, 3300))
+    cr = CheckRun("C05", "exploration", default_budget=(1200, 7200))
     with build.Scratch("C05") as sd:
         SCR = sd
         T.update(build.build_tools(build.variant("asan"), os.path.join(sd, "bin"), tools=["rdsquashfs", "sqfs2tar", "sqfsdiff", "gensquashfs"]))
+        c10 = load_c10()
+        T["reader_hist"] = c10.build_harness(sd)
         if cr.replay:
             ip = os.path.join(cr.replay, "image.sqfs")
             case = json.load(open(os.path.join(cr.replay, "case.json")))
             argv = [T[os.path.basename(case["argv"][0])]] + [a if not a.endswith("img.sqfs") else ip for a in case["argv"][1:]]
+            if os.path.exists(os.path.join(cr.replay, "ops.txt")):
+                argv = [a if not a.endswith(".ops") else os.path.join(cr.replay, "ops.txt") for a in argv]
             argv = [a if "/base_" not in a else ip for a in argv]
             r = run_reader(argv, sd, 150)
             print(argv, "rc", r.rc, "timeout", r.timeout)
@@ -129,6 +146,8 @@ def main():
             bp = os.path.join(sd, "base_%s.sqfs" % name)
             open(bp, "wb").write(img)
             BASE[name] = (img, fields, paths, bp)
+            ops_, mops_, _ = c10.derive_ops(img)
+            open(bp + ".ops", "w").write("\n".join(ops_ + mops_[:6]) + "\n")
             r = run_tool([T["rdsquashfs"], "-d", bp])
             if r.rc != 0:
                 raise RuntimeError("rdsquashfs rejects the benign base image %s: %s" % (name, r.err[-300:]))
@@ -141,6 +160,8 @@ def main():
         run_tool([T["gensquashfs"], "-q", "-c", "gzip", "-b", "4096", "-D", gz, gimg])
         gdata = open(gimg, "rb").read()
         BASE["gz-compressed-metadata"] = (gdata, {}, ["/d", "/d/f", "/d/l"], gimg)
+        ops_, mops_, _ = c10.derive_ops(gdata)
+        open(gimg + ".ops", "w").write("\n".join(ops_ + mops_[:6]) + "\n")
 
         jobs = []
         counts = {}
@@ -210,8 +231,9 @@ def main():
                 n_eval += 1
                 seen.add((bname, desc))
                 for fp, opname, what, argv in found:
+                    extra = {"ops.txt": open(BASE[bname][3] + ".ops", "rb").read()} if opname.startswith("libsquashfs-api") else {}
                     cr.violation(fp, "base image %s, %s, operation `%s`\n%s" % (bname, desc, opname, what),
-                                 files={"image.sqfs": data, "case.json": json.dumps(dict(base=bname, variant=desc, op=opname, argv=[os.path.basename(argv[0])] + argv[1:]))},
+                                 files={**extra, "image.sqfs": data, "case.json": json.dumps(dict(base=bname, variant=desc, op=opname, argv=[os.path.basename(argv[0])] + argv[1:]))},
                                  replay_sh="python3 /verif/checks/C05.py --replay \"$PWD\"")
         cr.sample({"base": "b1-all-basic-types", "variant": jobs[len(jobs) // 7][2] if jobs else None})
         cr.sample({"base": jobs[-1][0], "variant": jobs[-1][2]} if jobs else {})
@@ -223,7 +245,9 @@ def main():
                                 "sign bit,0x8000/1<<24 toggles, 8191..8193, 4096/4097, 65535/65536, 255..257, file length +-1, 32-bit wrap complements, every other value of a same-role field "
                                 "(aliasing, loops, type confusion), all table offsets for superblock pointers, all 16 type codes}. Deviation 2 (thorough): all pairs over inode+superblock "
                                 "fields of the minimal image x 3x3 values. Byte level: every metadata byte x {^1,^0x80,0,0xFF}; truncation at every length. Each variant is offered to "
-                                "rdsquashfs -l/-d/-s/-x/-c/-u (with and without -C -O -T -X), sqfs2tar, sqfsdiff (both orders). distinct = distinct (base, variant). "
+                                "rdsquashfs -l/-d/-s/-x/-c/-u (with and without -C -O -T -X), sqfs2tar, sqfsdiff (both orders), and to the libsquashfs reader API directly: every sequence of <= 2 operations "
+                                "(get_inode, readdir, resolve_path, data reader read/get_block/get_fragment/stream, xattr read_all, id lookup, meta reader seek+read; arguments derived from the valid "
+                                "base image) on fresh reader objects of the variant (engines/hist/reader_hist.c). distinct = distinct (base, variant). "
                                 "Oracle: terminates (15 s, re-run alone at 150 s), no ASan report, no fatal signal, no abort; any exit status (timeouts 10 s, re-run alone at 60 s).")
         cr.assumptions += ["coverage-guided mutation (a sampling technique) is replaced by the exhaustive deviation-1/2 and byte-level families",
                            "output size of unpack limited to 64 MiB per file (RLIMIT_FSIZE) so that a huge declared size is an error, not a hang"]
